@@ -24,6 +24,8 @@ RULES_DOC = dict(common.SHARED_DOC)
 RULES_DOC["R11"] = "= C06.R2: a resumed unit is pushed before it stops being counted as blocked (never in flight and unaccounted: a stream may not terminate under it)"
 RULES_DOC["R12"] = "= C07.R1: every queue operation installed for a shared access mode runs under the pool lock (no unit lost or handed out twice)"
 RULES_DOC["R13"] = "= C12.R4: revive clears every pending request before the unit is pushed (a stale cancel/migrate request does not swallow the revived run)"
+RULES_DOC["R14"] = "RANDWS scheduler: the pool it steals from ranges over every pool but its own -- the index is `random % A + B` with B = 1 and A + B = num_pools (or the constant 1 when there are two pools), so no pool of the scheduler is left unpolled"
+RULES_DOC["R15"] = "= C07.R7: the batch push hands every non-NULL handle to the pool exactly once (compaction with one counter)"
 RULES_DOC.update({
     "R1": "create/revive push the unit exactly once iff pool_op == PUSH, never on error paths",
     "R2": "no store to the new descriptor after it was pushed",
@@ -460,6 +462,97 @@ def _import(rep, P, mod_rule, label, **kw):
         rep.ob(label, "[%s] %s" % (o["rule"], o["instance"]), o["ok"], o["detail"], o["loc"], site="%s/%s" % (label, o["instance"][:150]))
 
 
+def _lin(F, i, sym, depth=4):
+    """Linear form (coefficient of `sym`, constant) of an integer expression, or None."""
+    i = F.strip(i)
+    nd = F.nodes[i]
+    if "cv" in nd and nd.get("k") != "ref":
+        return (0, nd["cv"])
+    if canon.expr(F, i, 1).endswith(sym):
+        return (1, 0)
+    if nd.get("k") == "ref" and nd.get("dk") == "var" and depth > 0:
+        d = canon.reaching_def(F, nd["n"], i)
+        if isinstance(d, int):
+            return _lin(F, d, sym, depth - 1)
+        return None
+    if nd.get("k") == "bin" and nd["op"] in ("+", "-"):
+        a, b = _lin(F, nd["lh"], sym, depth), _lin(F, nd["rh"], sym, depth)
+        if a is None or b is None:
+            return None
+        sg = 1 if nd["op"] == "+" else -1
+        return (a[0] + sg * b[0], a[1] + sg * b[1])
+    return None
+
+
+def rule_R14(P, rep):
+    F = P.fn("sched_run", "src/sched/randws.c")
+    pops = [i for _b, i in F.calls(POPS) if "ABT_POOL_CONTEXT_OWNER_SECONDARY" in seq.macros_in(F, F.nodes[i]["a"][-1])]
+    rep.need(pops, "randws sched_run: no pop with the SECONDARY owner context (the steal)")
+    n = 0
+    for i in pops:
+        # the pool that is stolen from: pools[<index>]
+        pa = F.nodes[i]["a"][0]
+        idxs = [j for j in _expanded_nodes(F, pa) if F.nodes[j].get("k") == "idx"]
+        rep.need(idxs, "randws steal: the pool is not an element of the pool array")
+        ix = F.nodes[idxs[0]]["i"]
+        alts = _alternatives(F, ix)
+        for a in alts:
+            an = F.nodes[F.strip(a)]
+            n += 1
+            if an.get("cv") is not None:
+                ok = an["cv"] == 1
+                why = "constant victim %s" % an["cv"]
+            elif an.get("k") == "bin" and an["op"] == "+" and F.nodes[F.strip(an["lh"])].get("k") == "bin" and \
+                    F.nodes[F.strip(an["lh"])]["op"] == "%":
+                A = _lin(F, F.nodes[F.strip(an["lh"])]["rh"], "::num_pools")
+                B = _lin(F, an["rh"], "::num_pools")
+                ok = A is not None and B is not None and B == (0, 1) and (A[0] + B[0], A[1] + B[1]) == (1, 0)
+                why = "victim = random %% (%s) + (%s): the range is not 1 .. num_pools-1" % (A, B)
+            else:
+                ok = False
+                why = "victim index %s is not `random %% A + B`" % canon.expr(F, a)
+            rep.ob("R14", "randws steals from an index that ranges over all other pools (%s)" % canon.expr(F, a)[:60], ok, why,
+                   loc=F.loc(i), site="randws/victim/%d" % alts.index(a))
+    rep.need(n >= 1, "randws: no victim expression")
+
+
+def _expanded_nodes(F, i, depth=3):
+    """Nodes of expression i with locals looked through (single reaching definition)."""
+    out = []
+    st = [(i, depth)]
+    while st:
+        x, d = st.pop()
+        x = F.strip(x)
+        out.append(x)
+        nd = F.nodes[x]
+        if nd.get("k") == "ref" and nd.get("dk") == "var" and d > 0:
+            r = canon.reaching_def(F, nd["n"], x)
+            if isinstance(r, int):
+                st.append((r, d - 1))
+        for c in F.children(x):
+            st.append((c, d))
+    return out
+
+
+def _alternatives(F, i, depth=3):
+    """The alternative values of expression i: through locals (single definition) and ?: arms."""
+    i = F.strip(i)
+    nd = F.nodes[i]
+    if nd.get("k") == "cond":
+        return _alternatives(F, nd["th"], depth) + _alternatives(F, nd["el"], depth)
+    if nd.get("k") == "ref" and nd.get("dk") == "var" and depth > 0:
+        r = canon.reaching_def(F, nd["n"], i)
+        if isinstance(r, int):
+            return _alternatives(F, r, depth - 1)
+        rs = canon.reaching_defs(F, nd["n"], i)
+        if rs:
+            out = []
+            for r in rs:
+                out += _alternatives(F, r, depth - 1)
+            return out
+    return [i]
+
+
 def run(P, rep, tier):
     common.run_shared(P, rep, which=("X1",))
     rule_R1_R2(P, rep)
@@ -474,3 +567,5 @@ def run(P, rep, tier):
     common.borrow(rep, P, C06.rule_R2, "R11")
     common.borrow(rep, P, C07.rule_R1_R5, "R12", only=("R1",))
     common.borrow(rep, P, C12.rule_R4, "R13")
+    rule_R14(P, rep)
+    common.borrow(rep, P, C07.rule_R7, "R15")
